@@ -80,9 +80,10 @@ CHECKS = {
         "groups": [
             {"pkg": "Havoc/pkg/common/builder", "entries": ["H_c13_options"], "shards": 9, "no_native_witness": True, "no_native_replay": True},
             {"pkg": "Havoc/pkg/common/builder", "entries": ["H_c13_hours"], "shards": 2, "no_native_witness": True, "no_native_replay": True},
+            {"pkg": "Havoc/pkg/common/builder", "entries": ["H_c13_http"], "shards": 5, "no_native_witness": True, "no_native_replay": True},
         ],
-        "bounds": "options: Sleep 1..2 digits, Jitter 1..3 digits, every enumerated choice of allocation/execution/sleep technique/jump gadget/proxy loading/AMSI plus one 'other' value, stack duplication and indirect syscalls on/off, SMB listener with arbitrary 64-bit kill date; working hours: H[H]:MM-H[H]:MM with arbitrary digits.",
-        "outside": "HTTP listener block (hosts, headers, URIs, proxy), compiler command line and shell quoting of the service name, Patch() of the binary, interface-name resolution, non-ASCII strings (UTF-16 encoder stubbed by its ASCII behaviour), regexp (decided by a hand-written matcher for the one pattern)",
+        "bounds": "options: Sleep 1..2 digits, Jitter 1..3 digits, every enumerated choice of allocation/execution/sleep technique/jump gadget/proxy loading/AMSI plus one 'other' value, stack duplication and indirect syscalls on/off, SMB listener with arbitrary 64-bit kill date; working hours: H[H]:MM-H[H]:MM with arbitrary digits. HTTP listener block: method POST/post/GET/get/empty, rotation round-robin/random/unset, connect port set (2 arbitrary digits) or unset (bind port used), 1..3 hosts each with or without its own 2-digit port, an unparsable connect or host port, TLS flag, user agent with one arbitrary printable character, 0..2 headers with and without a host header, 0..2 URIs, proxy on/off, arbitrary 64-bit kill date; a second build for the same listener yields a block of the same size.",
+        "outside": "IPv6 host literals, working hours inside the HTTP block (covered separately), compiler command line and shell quoting of the service name, Patch() of the binary, interface-name resolution, non-ASCII strings (UTF-16 encoder stubbed by its ASCII behaviour), regexp (decided by a hand-written matcher for the one pattern)",
         "min_completed": 3,
     },
     "C10": {
@@ -174,7 +175,7 @@ CHECKS = {
             {"pkg": "Havoc/pkg/agent", "with": ["Havoc/pkg/logr", "Havoc/pkg/common/parser", "Havoc/pkg/socks"], "entries": ["H_c02_build"], "flags": ["-tags", "uf_aes"], "shards": 2},
             {"pkg": "Havoc/pkg/agent", "with": ["Havoc/pkg/logr", "Havoc/pkg/common/parser", "Havoc/pkg/socks"], "entries": ["H_c02_prepare"], "flags": ["-tags", "uf_aes"], "shards": 10},
         ],
-        "bounds": "framing: batches of 1..2 tasks with 0..2 arguments of the 11 supported Go types (strings/byte slices of 0..2 arbitrary bytes), arbitrary command and request ids, AES-CTR as uninterpreted key stream; TaskPrepare: EXIT, SLEEP (1..2 digit delay/jitter), JOB (4 sub-commands, 1..2 digit id), TRANSFER (4 sub-commands, any 8-hex-digit file id), PROC kill/modules (1..3 digit pid), PROC_LIST, PPIDSPOOF, PIVOT list/disconnect (any 8-hex-digit id); task id any 8 hex digits (EXIT) or fixed.",
+        "bounds": "framing: one task with 0..2 arguments, or two tasks with 0..1 arguments each (thorough: 0..2), of the 11 supported Go types (strings/byte slices of 0..2 arbitrary bytes), arbitrary command and request ids, AES-CTR as uninterpreted key stream; TaskPrepare: EXIT, SLEEP (1..2 digit delay/jitter), JOB (4 sub-commands, 1..2 digit id), TRANSFER (4 sub-commands, any 8-hex-digit file id), PROC kill/modules (1..3 digit pid), PROC_LIST, PPIDSPOOF, PIVOT list/disconnect (any 8-hex-digit id); task id any 8 hex digits (EXIT) or fixed.",
         "outside": "all other commands and sub-commands (file/BOF/assembly based, NET, TOKEN, CONFIG, KERBEROS, socks, FS), non-ASCII and long parameter strings, batches of more than 2 tasks",
         "min_completed": 3,
     },
@@ -233,7 +234,7 @@ LEVELS = {
     "C15": {"text": "Bounded symbolic execution of the real SOCKS negotiation/request parsing (with the real bufio.Reader), the proxy connection handler and the COMMAND_SOCKET callbacks against a reference RFC 1928 parser; the client's byte stream and its TCP segmentation are symbolic.",
             "note": "net.Conn is a scripted in-memory connection (same code natively); goroutines are recorded, not run."},
     "C13": {"text": "Bounded symbolic execution of the real Builder.PatchConfig and ParseWorkingHours against a reference reader transcribed from Demon.c DemonConfig(); every enumerated option and symbolic digits/integers; a crossed assignment of one option shows as a field mismatch.",
-            "note": "SMB transport only in this revision; UTF-16 encoder and regexp are stubs stated in the harness; no native replay (the stubs stand for x/text and regexp)."},
+            "note": "UTF-16 encoder and regexp are stubs stated in the harness; no native replay (the stubs stand for x/text and regexp)."},
     "C10": {"text": "Bounded symbolic execution of the real pkg/db code (AgentAdd/AgentUpdate/AgentAll, LinkAdd/LinkRemove/LinksOf/ParentOf/LinkExist, ListenerAdd/Remove/All/Exist/Count, and init()'s CREATE TABLE statements) over operation sequences and symbolic ids/text, with database/sql replaced by a relational model that executes the SQL text the code really sends under SQLite's affinity and UNIQUE rules; a restart is a new handle on the same tables; counterexamples and witnesses are replayed on real SQLite.",
             "note": "Kill points inside a statement and journalling are outside (statements are atomic in the model); base64 is an injective model that distinguishes alphabets; listener configuration encoding (structs.Map/json) is outside."},
     "C17": {"text": "Bounded symbolic execution of the real scanners and parsers: the JSON scanner, the string-literal sub-lexer, the Ragel-generated native-syntax scanner and the four hclsyntax entry points over every byte string up to the bound, plus every single-byte mutation of a set of well-formed sources; totality (no panic, loop bound), token losslessness, range containment and evaluation of error-free inputs are assertions decided by the solver for every input in the bound.",
